@@ -33,7 +33,7 @@ def random_files(ctx, rnd, n):
             vals = ["100", "OFXSGML", str(rnd.choice([102, 103, 151, 160, 100, 199, rnd.randrange(100, 200)])),
                     rnd.choice(["NONE", "TYPE1"]), rnd.choice(["USASCII", "UNICODE", "UTF-8"]), cs, "NONE", uid(), uid()]
             names = ["OFXHEADER", "DATA", "VERSION", "SECURITY", "ENCODING", "CHARSET", "COMPRESSION", "OLDFILEUID", "NEWFILEUID"]
-            head = rnd.choice(["", "", "\r\n", "\n\n", "  \n", "\n\r\n\n"])
+            head = rnd.choice(["", "", "\r\n", "\n\n", "  \n", "\n\r\n\n"] + (["\r", "\r\r", "\r \r"] if sep == "\r" else []))
             for k, (nm, v) in enumerate(zip(names, vals)):
                 head += nm + ":" + bl + v + (sep if k < 8 else "")
             gap = rnd.choice(["", "\n", "\r\n", "\r\n\r\n", "\r", " ", "\n\n\n", "\t\r\n "])
@@ -65,6 +65,11 @@ def random_files(ctx, rnd, n):
             body = "<OFX><A>" + inner + "</A></OFX>"
             data = (rnd.choice(["", "\n"]) + xml + br1 + ofx + br2 + body + rnd.choice(["", "\n"])).encode("utf_8")
             ctx.nontrivial.add((2, xq, oq, len(set(Q)) > 1, br1, br2, inner))
+        if rnd.random() < 0.03 and any(b > 0xdf for b in data) and (cs_ := ("NONE" if data.startswith(b"<") or b"CHARSET:NONE" in data else "")):
+            # a download cut in the middle of a multi-byte character, BEFORE the whole file: the failure of one read must
+            # not leave anything behind for the next
+            k = max(i for i, b in enumerate(data) if b > 0xdf)
+            files.append(bytearray(data[:k + 1]))      # (a bytearray marks it: read, outcome not judged - the property is silent)
         files.append(data)
     return files
 
@@ -85,8 +90,14 @@ def run(ctx):
         n += 1
     ctx.extra["grid_cases_replayed"] = n
     rnd = random.Random(ctx.seed * 611953 + 5)
+    ntrunc = 0
     for i, data in enumerate(random_files(ctx, rnd, 3000 if quick else 40000)):
+        if isinstance(data, bytearray):
+            hc.ev_parse("t%d" % i, bytes(data))       # a truncated download: whatever happens, the NEXT files are judged
+            ntrunc += 1
+            continue
         evs.append(hc.ev_parse("r%d" % i, data))
+    ctx.extra["truncated_downloads_interleaved"] = ntrunc
     ctx.evaluations = len(evs)
     for e in evs[:2] + evs[-2:]:
         ctx.sample(hc.describe(e))
